@@ -131,6 +131,10 @@ func isByteSlice(t types.Type) bool {
 // streamOf returns the object of the buffer expression (ident), or nil.
 func (x *extractor) streamOf(e ast.Expr) types.Object {
 	e = ast.Unparen(e)
+	// `var b bytes.Buffer … &b` is the same stream as `b := &bytes.Buffer{} … b`
+	if u, ok := e.(*ast.UnaryExpr); ok && u.Op == token.AND {
+		e = ast.Unparen(u.X)
+	}
 	if id, ok := e.(*ast.Ident); ok {
 		return x.f.ObjOf(id)
 	}
